@@ -198,7 +198,12 @@ func geom2Shp(g geom.Geom) (shp.Shape, error) {
 	case geom.Polygon:
 		return geom2polygon(g.(geom.Polygon)), nil
 	case *geom.Bounds:
-		return geom2polygon(g.(*geom.Bounds).Polygons()[0]), nil
+		// Write the box as a closed five-vertex ring. Closing it here, rather
+		// than leaving it to geom2polygon, also closes boxes without height or
+		// width, whose first and last corners coincide.
+		ring := g.(*geom.Bounds).Polygons()[0][0]
+		ring = append(ring, ring[0])
+		return geom2polygon(geom.Polygon{ring}), nil
 	case geom.LineString:
 		return geom2polyLine(geom.MultiLineString{g.(geom.LineString)}), nil
 	case geom.MultiLineString:
